@@ -102,11 +102,17 @@ def main(tier):
         days = [ch.fmtF(l) for l in chainmod.boundary_ldns(rng, width=2)[::9]]
         pool = days[:40] + [d + "T12:34:56" for d in days[:20]] + ["2012-W10-4", "2012-03-02-04", "2012-068", "no date here", "2012-02-30",
                                                                    "12:00:00", "", "2012-03-08b", "xx 2012-03-08 yy 2012-03-09"]
+        dtest_dummy = None
         specs = [(dconv, ["-f", "%F %a %j"], "stdin"), (dconv, ["-S", "-f", "%G-W%V-%u"], "stdin"), (dconv, ["-i", "%y%m%d", "--base", "2012-01-01"], "stdin"),
                  (dadd, ["+1mo", "-1d"], "stdin"), (dadd, ["-S", "1w"], "stdin"), (dround, ["Mon"], "stdin"), (dround, ["-S", "+1mo"], "stdin"),
                  (ddiff, ["2012-03-08", "-f", "%d days %H hours"], "stdin"), (dgrep, [">=2012-01-01"], "stdin"), (dgrep, ["-v", "<2000-01-01"], "stdin"),
-                 (dconv, ["-f", "%s"], "args"), (dzone, ["Europe/Berlin", "Asia/Kathmandu"], "args"), (dadd, ["2012-03-08"], "dur")]
+                 (dconv, ["-f", "%s"], "args"), (dzone, ["Europe/Berlin", "Asia/Kathmandu"], "args"), (dadd, ["2012-03-08"], "dur"),
+                 # several values as arguments: what is decided for one value (duration type, calendar, format) must not stick to the next
+                 (ddiff, ["2012-03-01T12:00:00"], "args"), (ddiff, ["2012-03-01"], "args"), (ddiff, ["2012-03-01T12:00:00", "-f", "%d %H:%M:%S"], "args"),
+                 (dadd, ["+1d"], "args"), (dadd, ["+90m"], "args"), (dround, ["Mon"], "args"), (dround, ["/1h"], "args"), (dconv, ["-f", "%F|%T"], "args"),
+                 (dtest_dummy, [], "skip")]
         durs = ["1d", "-1d", "1mo", "+2w", "3b", "-1y", "1h", "x1", "/1d", "1d1mo", "-3h"]
+        specs = [x for x in specs if x[2] != "skip"]
         for tool, args, mode in specs:
             for k in range(6 if quick else 60):
                 n = rng.randrange(2, 7)
